@@ -216,13 +216,14 @@ schema, preserves every record of every relation it writes": after a successful 
 (names without repetition), every relation `n` it was asked to write reads back as exactly the
 lines staged from the records that the source relation held BEFORE the call — for an in-place
 write (`inPlace`, source = destination) too: the loop never reads a file it has already replaced —
-remade by column name if a schema was given; it exists in exactly one physical form, compressed
-iff requested and non-empty. -/
+remade by column name if a schema was given (`sourceVals`: raw cells of a source opened with
+`autocast=False`, typed values of one opened with `autocast=True`); it exists in exactly one
+physical form, compressed iff requested and non-empty. -/
 theorem writeDb_preserves (now : Nat) (q : DbReq) (src dst d : Files)
     (hnd : q.nameList.Nodup) (h : writeDb now q src dst = (d, none)) (n : Name) (hn : n ∈ q.nameList) :
-    ∃ fields recs lines, q.target.lookup n = some fields ∧
-      sourceRecords q fields (if q.inPlace then dst else src) n = .ok recs ∧
-      stage fields (recs.map (·.map toVal)) = .ok lines ∧
+    ∃ fields vals lines, q.target.lookup n = some fields ∧
+      sourceVals q fields (if q.inPlace then dst else src) n = .ok vals ∧
+      stage fields vals = .ok lines ∧
       (d n).read = some lines ∧ OneForm (d n) ∧
       ((d n).gz.isSome = true ↔ (q.gzip = true ∧ lines ≠ [])) := by
   unfold writeDb at h
@@ -265,7 +266,7 @@ theorem writeDb_preserves (now : Nat) (q : DbReq) (src dst d : Files)
             obtain ⟨fields', recs', lines', a1, a2, a3, a4⟩ := ih (now + 1) dst' hnd' hmem hloop
             refine ⟨fields', recs', lines', a1, ?_, a3, a4⟩
             rw [← a2]
-            apply sourceRecords_congr
+            apply sourceVals_congr
             cases q.inPlace
             · rfl
             · simp [hset, Files.set_other _ _ _ _ hEq]
@@ -377,20 +378,69 @@ open Verif.C08 (normEmpty) in
 /-- `writeDb_preserves` through the raw read interface: every written relation reads back as the
 source records (remade by name if a schema was given), cell by cell, an empty cell replaced by the
 column default. -/
-theorem writeDb_readRaw (now : Nat) (q : DbReq) (src dst d : Files)
+theorem writeDb_readRaw (now : Nat) (q : DbReq) (src dst d : Files) (hraw : q.autocast = false)
     (hnd : q.nameList.Nodup) (h : writeDb now q src dst = (d, none)) (n : Name) (hn : n ∈ q.nameList) :
     ∃ fields recs, q.target.lookup n = some fields ∧
       sourceRecords q fields (if q.inPlace then dst else src) n = .ok recs ∧
       readRaw (d n) = .ok (recs.map (fun rec =>
         ((fields.zip rec).map (fun fc => fc.2.getD fc.1.default)).map (fun s => normEmpty (some s)))) := by
-  obtain ⟨fields, recs, lines, h1, h2, h3, h4, _, _⟩ := writeDb_preserves now q src dst d hnd h n hn
-  refine ⟨fields, recs, h1, h2, ?_⟩
+  obtain ⟨fields, vals, lines, h1, h2, h3, h4, _, _⟩ := writeDb_preserves now q src dst d hnd h n hn
+  unfold sourceVals at h2
+  simp only [hraw, Bool.false_eq_true, if_false] at h2
+  cases hs : sourceRecords q fields (if q.inPlace then dst else src) n with
+  | error e => simp [hs] at h2
+  | ok recs =>
+  simp only [hs, Except.ok.injEq] at h2
+  subst h2
+  refine ⟨fields, recs, h1, hs, ?_⟩
   rw [readRaw_staged fields _ lines (d n) h3 h4, List.map_map]
   congr 1
   apply List.map_congr_left
   intro rec _
   simp [cells_of_raw]
 
+
+
+/-! ## typed sources (`Database(autocast=True)` handed to `write_database`) -/
+
+open Verif.C08 (Val) in
+/-- remaking a typed record: a target column that the source has carries the source VALUE of that
+name, whatever it is — `0`, `-1` (the text of the integer default) and every other value alike; only
+`None` (an empty cell) is later replaced by the column default. -/
+theorem remakeV_kept (oldF newF : List Field) (rec : List Val) (hnd : (oldF.map (·.name)).Nodup)
+    (i j : Nat) (hi : i < newF.length) (hj : j < oldF.length) (hr : j < rec.length)
+    (hname : newF[i].name = oldF[j].name) :
+    (remakeV oldF newF rec)[i]? = some rec[j] := by
+  have hj' : j < (oldF.map (·.name)).length := by simpa using hj
+  have h := colGetV_get (oldF.map (·.name)) rec hnd j hj' hr
+  simp only [List.getElem_map] at h
+  simp [remakeV, hi, hname, h]
+
+open Verif.C08 (Val) in
+theorem remakeV_added (oldF newF : List Field) (rec : List Val) (i : Nat) (hi : i < newF.length)
+    (hnew : newF[i].name ∉ oldF.map (·.name)) :
+    (remakeV oldF newF rec)[i]? = some Val.none := by
+  simp [remakeV, hi, colGetV_not_mem _ rec _ hnew]
+
+open Verif.C08 (Val) in
+theorem remakeV_id (f : List Field) (rec : List Val) (hnd : (f.map (·.name)).Nodup)
+    (hlen : rec.length = f.length) : remakeV f f rec = rec := by
+  apply List.ext_getElem
+  · simp [remakeV, hlen]
+  · intro i h1 h2
+    have hi : i < f.length := by simpa [remakeV] using h1
+    have hi' : i < (f.map (·.name)).length := by simpa using hi
+    have h := colGetV_get (f.map (·.name)) rec hnd i hi' h2
+    simp only [List.getElem_map] at h
+    simp [remakeV, h]
+
+/-- the integer `0` (falsy in Python) in a typed record is printed as `0`, not as the column
+default: `i-wf` has the coded default `1`, a plain `:integer` column `-1`. -/
+theorem zero_is_not_empty :
+    fmtField ⟨"i-wf".toList, .integer⟩ (.int 0) = ['0'] ∧ fmtField ⟨"i-wf".toList, .integer⟩ .none = ['1']
+    ∧ fmtField ⟨"n".toList, .integer⟩ (.int 0) = ['0'] ∧ fmtField ⟨"n".toList, .integer⟩ .none = ['-', '1']
+    ∧ remakeV [⟨"n".toList, .integer⟩, ⟨"i-wf".toList, .integer⟩] [⟨"i-wf".toList, .integer⟩, ⟨"n".toList, .integer⟩]
+        [.int 0, .int 0] = [.int 0, .int 0] := by decide
 
 /-! ## the relations file (`_format_schema` / `_parse_schema`, `write_schema` / `read_schema`) -/
 
